@@ -156,6 +156,15 @@ def main(path):
         bindings.update({'old': old, 's': state, 'K': K, 'a': a, 'integral': model.get('chips', 'int') == 'int'})
         kind, meta = ob['kind'], ob['meta']
         path_kind = meta.get('path', 'normal')
+        if K is not None and hasattr(K, 'requires'):
+            try:
+                pre_ok = bool(call_clause(K.requires, bindings))
+            except Exception as e:     # noqa
+                pre_ok = False
+            if not pre_ok:
+                print(json.dumps({'confirmed': None, 'detail': 'the rebuilt native input does not satisfy the contract precondition '
+                                  '(abstract parts of the model have no direct native counterpart)'}))
+                return
         result, exc = None, None
 
         def run():
